@@ -1523,7 +1523,7 @@ func (c *boundsCtx) proveSlice(at ssa.Instruction, s *ssa.Slice) (bool, string) 
 	if !loLEhi {
 		why = append(why, "cannot show "+showTerm(lo)+" <= "+showTerm(hi))
 	}
-	if s.High != nil && !g.le(hi, ln) {
+	if s.High != nil && !g.le(hi, ln) && !(hi.off == 0 && c.webLELen(s.High, s.X)) {
 		// slices may be re-sliced up to cap: accept hi <= cap when the operand is a fresh make with that cap
 		why = append(why, "cannot show "+showTerm(hi)+" <= "+showTerm(ln))
 	}
@@ -1531,6 +1531,69 @@ func (c *boundsCtx) proveSlice(at ssa.Instruction, s *ssa.Slice) (bool, string) 
 		return true, "0 <= " + showTerm(lo) + " <= " + showTerm(hi) + " <= " + showTerm(ln)
 	}
 	return false, strings.Join(why, "; ")
+}
+
+// webLELen: v <= len(x) by induction over the web of phis v belongs to. The phis of the web only copy
+// values, so every value v can take is one of the web's leaves (the non-phi operands); x is defined
+// above every phi of the web (its length is the same whenever a leaf is computed), and each leaf is
+// at most len(x) where it is computed: a constant <= 0, or a value the dominating conditions bound
+// (`e + 1` under `e < len(x)`).
+func (c *boundsCtx) webLELen(v, x ssa.Value) bool {
+	ph, ok := v.(*ssa.Phi)
+	if !ok {
+		return false
+	}
+	if _, isPhi := x.(*ssa.Phi); isPhi {
+		return false
+	}
+	var xb *ssa.BasicBlock
+	if in, isIn := x.(ssa.Instruction); isIn {
+		xb = in.Block()
+	}
+	ln := c.lenTerm(x)
+	seen := map[ssa.Value]bool{}
+	var leaves []ssa.Value
+	good := true
+	var rec func(p *ssa.Phi)
+	rec = func(p *ssa.Phi) {
+		if seen[p] || !good {
+			return
+		}
+		seen[p] = true
+		if xb != nil && !(xb != p.Block() && xb.Dominates(p.Block())) {
+			good = false
+			return
+		}
+		for _, e := range p.Edges {
+			if q, isQ := e.(*ssa.Phi); isQ {
+				rec(q)
+			} else if !seen[e] {
+				seen[e] = true
+				leaves = append(leaves, e)
+			}
+		}
+	}
+	rec(ph)
+	if !good || len(leaves) == 0 || len(seen) > 64 {
+		return false
+	}
+	for _, lf := range leaves {
+		if k, isC := constInt(lf); isC {
+			if k > 0 {
+				return false
+			}
+			continue
+		}
+		in, isIn := lf.(ssa.Instruction)
+		if !isIn || in.Block() == nil {
+			return false
+		}
+		g := c.graphFor(in, x, lf)
+		if !g.le(c.termOf(lf), ln) {
+			return false
+		}
+	}
+	return true
 }
 
 func showTerm(t term) string {
